@@ -91,6 +91,21 @@ def r_index(repo, tier):
         kw = {k.arg: k.value for k in c.keywords}
         key = kw.get("key")
         body = _lambda_text(key) if key is not None else None
+        if body is None and key is not None:
+            # a named key function of the same file: `def _weight(spec): return spec.mask.hw()`
+            g = None
+            if isinstance(key, ast.Name):
+                g = setup.mod.functions.get(key.id)
+            elif isinstance(key, ast.Attribute) and isinstance(key.value, ast.Name) and key.value.id in ("self", "cls", "disassembler") and setup.cls is not None:
+                g = setup.cls.methods.get(key.attr)
+            if g is not None:
+                stmts = [x for x in g.node.body if not (isinstance(x, ast.Expr) and isinstance(x.value, ast.Constant))]
+                ps = [a.arg for a in g.node.args.args if a.arg not in ("self", "cls")]
+                if len(stmts) == 1 and isinstance(stmts[0], ast.Return) and stmts[0].value is not None and len(ps) == 1:
+                    body = _lambda_text(ast.Lambda(args=ast.arguments(posonlyargs=[], args=[ast.arg(arg=ps[0])], kwonlyargs=[], kw_defaults=[], defaults=[]), body=stmts[0].value))
+            if body is None:
+                out.undecide(CORE, setup.dqual, "ORDER: sort key %s" % norm(key)[:40], "the key function is not a lambda nor a one-line function of this file")
+                continue
         rev = kw.get("reverse")
         descending = isinstance(rev, ast.Constant) and rev.value is True
         if body is None:
@@ -262,7 +277,14 @@ def r_index(repo, tier):
     rec = [a for a in ast.walk(sn) if isinstance(a, ast.Assign) and isinstance(a.targets[0], ast.Subscript) and isinstance(a.value, ast.Call) and norm(a.value.func) == "self.setup"]
     loops_all = [l for l in ast.walk(sn) if isinstance(l, ast.For) and any(r is x for r in rec for x in ast.walk(l))]
     out.inst("setup::RECURSE", {"recursions": [norm(a) for a in rec]})
-    if not rec or not loops_all:
+    comps = [d for d in ast.walk(sn) if isinstance(d, ast.DictComp) and isinstance(d.value, ast.Call) and norm(d.value.func) == "self.setup"]
+    if comps:
+        # `{x: self.setup(S) for x, S in parts.items()}`: every bucket is organised unless the comprehension filters
+        out.inst("setup::RECURSE::comprehension", {"recursions": [norm(d)[:90] for d in comps]})
+        for d in comps:
+            if any(g.ifs for g in d.generators):
+                out.report(CORE, setup.dqual, "RECURSE: conditional", d.lineno, "some buckets are skipped by the comprehension that organises them")
+    elif not rec or not loops_all:
         out.report(CORE, setup.dqual, "RECURSE", sn.lineno, "the buckets of a split node are not organised by setup: __call__ expects every value of the node's dict to be a (mask, subtree) pair")
     else:
         for l in loops_all:
